@@ -442,7 +442,10 @@ def gen_layout(rng, npt):
     b = rng.choice([d for d in bd if d > 1] or bd)
     shape3 = [a, b, rest // b]
     rng.shuffle(shape3)
-    return {"shape": shape3, "order": "F" if q < 0.85 else "strided"}
+    lay = {"shape": shape3, "order": "F" if q < 0.8 else ("strided" if q < 0.9 else "C")}
+    if rng.random() < 0.35:
+        lay["nan_slab"] = True       # the batch is part of a larger one whose other members have NaN moments
+    return lay
 
 
 def eval_est(ctx, item, impl, mod):
@@ -455,7 +458,7 @@ def eval_est(ctx, item, impl, mod):
             "a2": [m[2] for _, m in entries], "b2": [m[3] for _, m in entries]}
     ctx.tally("shape-rank-%d" % len(shape))
     lay = ctx_case_layout.get(i)
-    ctx.tally("moment-array-layout:%s" % ("C" if not lay else "%s-rank-%d" % (lay["order"], len(lay["shape"]))))
+    ctx.tally("moment-array-layout:%s" % ("C" if not lay else "%s-rank-%d%s" % (lay["order"], len(lay["shape"]), "+nan-slab" if lay.get("nan_slab") else "")))
     rep0["memory_layout_of_moment_arrays"] = lay or "C order, shape as given"
     if err_of(im):
         for _ in entries:
